@@ -186,8 +186,11 @@ package parser
 //@ ensures one: (result1 == nil) != (result0 == nil)
 
 // Parse = Scan + parseTokens (C05, C06, C07, C01)
+// Every source goes through Scan with the configured delimiters (C19): the tree and error are
+// exactly what parseTokens makes of those tokens.
 //@ func (parser.Config).Parse
-//@ props C06 C05 C07 C01
+//@ props C06 C05 C07 C19 C01
+//@ at call Scan #1 before assert configured: arg0 == source && arg1 == loc && arg2 == c.Delims
 //@ panics nothing
 //@ ensures one: (result1 == nil) != (result0 == nil)
 // ASSUMED, not proved (the parser appends through a pointer whose target the model does not
